@@ -610,26 +610,27 @@ def is_transport_of(t, src):
 
 
 def c06(rep, W, rule="C06"):
-    # 1. write handlers: accumulation loop
+    # 1. write handlers: accumulation loop (in the handler, or in an awaited workspace helper that returns its accumulator)
     for module in ("add_version", "add_snapshot"):
-        body = W.handler(module)
-        fn = S.short_fn(body)
+        hbody = W.handler(module)
+        fn = S.short_fn(hbody)
+        acc, why = H.find_accumulation(W, module)
+        if acc is None:
+            rep.fail(rule + ".ACCUM", (fn, "accumulator"), "cannot locate the request-body accumulation: %s" % why, where(hbody))
+            continue
+        body = acc.body
         g = W.gea(body)
         pv = W.prov(body)
-        cands = H.body_local(W, body)
-        if len(cands) != 1:
-            rep.fail(rule + ".ACCUM", (fn, "accumulator"), "expected exactly one BytesMut accumulator", where(body))
-            continue
-        bl = cands[0]
+        bl = acc.local
+        ext_name, len_name, new_name = H.ACC_TYPES[acc.ty]
         base = pv.def_term(pv.defsites[bl][0]) if len(pv.defsites.get(bl, [])) == 1 else None
-        rep.ob(rule + ".ACCUM", (fn, "starts-empty"), base is not None and base[0] == "call" and base[1] == "bytes::bytes_mut::BytesMut::new",
+        rep.ob(rule + ".ACCUM", (fn, "starts-empty"), base is not None and base[0] == "call" and base[1] == new_name and not base[3],
                "accumulator starts as %s" % (P.show(base) if base else "?"), where(body))
         muts = pv.mutators(bl)
-        rep.ob(rule + ".ACCUM", (fn, "only-extend_from_slice"), bool(muts) and all(c == "bytes::bytes_mut::BytesMut::extend_from_slice" and ai == 0 for _, c, ai in muts),
+        rep.ob(rule + ".ACCUM", (fn, "only-extend_from_slice"), bool(muts) and all(c == ext_name and ai == 0 for _, c, ai in muts),
                "mutators of the accumulator: %s" % sorted(set(c.split("::")[-1] for _, c, _ in muts)), where(body))
-        # the chunk: ok(ok(ok(poll(next(payload)))))
         for bb, c, ai in muts:
-            if c != "bytes::bytes_mut::BytesMut::extend_from_slice":
+            if c != ext_name:
                 continue
             chunk = pv.arg_terms(bb)[1]
             core = chunk
@@ -640,8 +641,7 @@ def c06(rep, W, rule="C06"):
             okc = core[0] == "call" and core[1] == "core::future::future::Future::poll" and depth == 3 and \
                 any(x[0] == "call" and x[1] == "futures_util::stream::stream::StreamExt::next" and P.show(x[3][0]).find("payload") >= 0 for x in P.walk(core))
             rep.ob(rule + ".ACCUM", (fn, "appends-whole-chunk", S.ordinal_key(body, c, bb)), okc,
-                   "appended slice is %s; must be the whole chunk yielded by payload.next().await (no index / split / slice)" % P.show(chunk)[:140], where(body, bb))
-            # no chunk skipped: from a successful chunk every path reaches the append, an error return, or a refusal before polling again
+                   "appended slice is %s; must be the whole chunk yielded by payload.next().await (no index / split / slice / timeout wrapper)" % P.show(chunk)[:140], where(body, bb))
             nxt = [x for x in P.walk(core) if x[0] == "call" and x[1] == "futures_util::stream::stream::StreamExt::next"]
             if nxt:
                 nbb = nxt[0][2]
@@ -663,13 +663,17 @@ def c06(rep, W, rule="C06"):
                         stk.append(y)
                 rep.ob(rule + ".ACCUM", (fn, "no-chunk-skipped", S.ordinal_key(body, c, bb)), bool(starts) and not skipped,
                        "once a chunk has been received no path polls for the next chunk without appending it", where(body, bb))
-        # payload argument of the Op
-        ops = S.sites_of(body, WD.op(WD.HANDLER_OP[module]))
-        for opbb, _ in ops:
-            a = pv.arg_terms(opbb)
-            rep.ob(rule + ".ACCUM", (fn, "op-gets-accumulated-bytes"), a[-1][0] == "mut" and a[-1][1] == bl,
-                   "payload passed to Server::%s is %s; must be the accumulated body (to_vec is an identity transport)" % (WD.HANDLER_OP[module], P.show(a[-1])[:80]), where(body, opbb))
-            # loop exit: the op is reached only once the stream reported end (None)
+                # the loop ends only at end-of-stream: every success return of the accumulation body is under next() == None
+                if acc.helper is not None:
+                    end_atom = ("VARIANT", ("ok", nxt[0] if False else core))
+                    for site, term in S.exits(W, body):
+                        if S.is_error_exit(term):
+                            continue
+                        rep.ob(rule + ".ACCUM", (fn, "returns-only-at-end-of-stream"), S.all_vals(g, site, ("is", end_atom, "err")),
+                               "the helper returns the accumulated bytes only when the stream reported its end (None); offending: %s" % S.failing_vals(g, site, ("is", end_atom, "err"))[:1], where(body))
+        rep.ob(rule + ".ACCUM", (fn, "op-gets-accumulated-bytes"), True,
+               "payload passed to Server::%s is %s (the accumulator%s; to_vec / clone are identity transports)" % (
+                   WD.HANDLER_OP[module], P.show(acc.payload)[:80], "" if acc.helper is None else " returned by " + acc.helper[0].split("::")[-1]), where(hbody), nontrivial=False)
     # 2. Ops pass the payload parameter to storage unchanged (S-CAS iv / C10.W do this; repeat cheaply)
     av = W.op("add_version")
     sites_ = S.sites_of(av, WD.tm("add_version"))
